@@ -259,6 +259,34 @@ Proof.
   - apply Forall_forall. intros x Hx. apply in_map_iff in Hx. destruct Hx as [? [<- _]]. exact I.
 Qed.
 
+Lemma tree_records_class : forall P st, Forall is_rec_ev (tree_records P st).
+Proof.
+  intros P. fix IH 1. intros [sid el k mons reqs subs]. simpl. apply Forall_app; split.
+  - destruct (nth_error (p_scenarios P) sid); [|constructor].
+    apply Forall_forall. intros x Hx. apply in_map_iff in Hx. destruct Hx as [? [<- _]]. exact I.
+  - induction subs as [|x r IHr]; [constructor|]. apply Forall_app; split; [apply IH|exact IHr].
+Qed.
+Lemma subs_records_class : forall P l, Forall is_rec_ev (subs_records P l).
+Proof.
+  intros. unfold subs_records. induction l; simpl; [constructor|]. apply Forall_app; split; auto. apply tree_records_class.
+Qed.
+Lemma phase_record_all_class : forall fuel P w s sr, Forall is_rec_ev (phase_record_all fuel P w s sr).
+Proof. intros. unfold phase_record_all. apply Forall_app; split; [apply phase_record_class|apply subs_records_class]. Qed.
+Lemma check_termsim_l_class : forall w t cs, Forall is_term_ev (snd (check_termsim_l w t cs)).
+Proof.
+  induction cs as [|[i c] r IH]; intros; simpl; auto.
+  destruct (eval w t c); simpl; [repeat constructor|].
+  destruct (check_termsim_l w t r); simpl in *. constructor; simpl; auto.
+Qed.
+Lemma check_all_termsim_class : forall P w t subs, Forall is_term_ev (snd (check_all_termsim P w t subs)).
+Proof.
+  intros. unfold check_all_termsim.
+  pose proof (check_termsim_class w t (p_termsim P) 0) as C. destruct (check_termsim w t 0 (p_termsim P)) as [b e]; simpl in C.
+  destruct b; simpl; auto.
+  pose proof (check_termsim_l_class w t (subs_termsim P subs)) as C2. destruct (check_termsim_l w t (subs_termsim P subs)) as [b2 e2]; simpl in *.
+  apply Forall_app; split; auto.
+Qed.
+
 Lemma phase_scen_class : forall fuel P w s, Forall is_scen_ev (snd (phase_scen fuel P w s)).
 Proof. intros. unfold phase_scen. destruct (top s); [apply (proj2 (run_class fuel P w (time s)))|constructor]. Qed.
 
@@ -282,8 +310,8 @@ Proof.
   intros qsub fuel P w mx sched s r evs H. unfold sim_step in H.
   pose proof (phase_scen_class fuel P w s) as C1.
   destruct (phase_scen fuel P w s) as [sr e1]; simpl in C1.
-  pose proof (phase_record_class P s) as C2.
-  set (e2 := phase_record P s) in *.
+  pose proof (phase_record_all_class fuel P w s sr) as C2.
+  set (e2 := phase_record_all fuel P w s sr) in *.
   assert (NIL : forall A (l : list A), l = l ++ []) by (intros; rewrite app_nil_r; reflexivity).
   assert (BAD : forall x s0, (Stop (kind_of_outcome x) s0, e1) = (r, evs) -> time s0 = time s ->
      match r with
@@ -316,8 +344,8 @@ Proof.
   2,3: inversion H; subst; (split; [|split; [reflexivity|intros ty K; inversion K; subst; simpl; repeat split; auto; discriminate]]);
       rewrite (NIL _ e3); change [] with (@nil event ++ concat []);
       apply fss_intro; auto; simpl; try constructor; lia.
-  pose proof (check_termsim_class w (time s) (p_termsim P) 0) as C4.
-  destruct (check_termsim w (time s) 0 (p_termsim P)) as [tc e4]; simpl in C4.
+  pose proof (check_all_termsim_class P w (time s) (subs_of st)) as C4.
+  destruct (check_all_termsim P w (time s) (subs_of st)) as [tc e4]; simpl in C4.
   destruct tc.
   { inversion H; subst. split; [|split; [reflexivity|intros ty K; inversion K; subst; simpl; repeat split; auto; discriminate]].
     rewrite (NIL _ e4). change [] with (concat (@nil (list event))). apply fss_intro; auto; simpl; try constructor; lia. }
@@ -606,7 +634,8 @@ Proof.
     destruct bad; [discriminate|].
     destruct (a || b) eqn:AB; [discriminate|]. apply orb_false_iff in AB. destruct AB as [-> ->].
     apply run_mons_keeps in RM; auto. destruct RM as [mons' [subs'' ->]].
-    simpl in H. destruct (check_termsim w (time s) 0 (p_termsim P)) as [tc e4]. destruct tc; [discriminate|].
+    simpl in H. match type of H with context [check_all_termsim ?a ?b ?c ?d] => destruct (check_all_termsim a b c d) as [tc e4] end.
+    destruct tc; [discriminate|].
     destruct (step_limit_hit mx (time s)); [discriminate|].
     destruct (beh_phase fuel P w (time s) (sched (time s)) (agents s) []) as [br e5]. destruct br; [|discriminate].
     inversion H; subst. simpl. unfold top_elapsed. simpl. eauto 8. }
